@@ -521,6 +521,17 @@ func (u *unitCtx) args(level, depth int, lambdaOK bool) {
 		if k > 0 {
 			w.S(rapid.SampledFrom([]string{", ", ",", ",\n" + u.ind(level+2)}).Draw(t, "argSep"))
 		}
+		if lambdaOK && u.g.o.Anon && depth <= 2 && rapid.IntRange(0, 11).Draw(t, "anonArg") == 0 {
+			// an anonymous class: its creation and the calls in its method are written in this body
+			w.S("new ")
+			line, col := w.Line(), w.Col()
+			w.S("Runnable")
+			u.event(Event{Kind: "new", Name: "Runnable", Line: line, Col: col})
+			w.S("() { public void run() { ")
+			u.staticCall(level, 3)
+			w.S("; } }")
+			continue
+		}
 		if lambdaOK && rapid.IntRange(0, 9).Draw(t, "lambdaArg") == 0 {
 			u.lambdaN++
 			lv := fmt.Sprintf("lx%d", u.lambdaN)
